@@ -352,3 +352,16 @@ Proof.
   pose proof (enc_dec_roundtrip t v2 Hwf H2 Hs2) as R2.
   rewrite E in R1. rewrite R1 in R2. now injection R2.
 Qed.
+
+(* ---------- wrapping a single value in a 1-tuple (external returns, abi_encode default, reasons) ---------- *)
+Theorem enc_wrap1 : forall t v,
+  enc (TTuple [t]) (VList [v]) = if is_dynamic t then word 32 ++ enc t v else enc t v.
+Proof.
+  intros t v. cbn [enc map zip_apply]. unfold enc_seq. cbn [heads tails head_len].
+  destruct (is_dynamic t); cbn [heads tails head_len]; now rewrite ?app_nil_r.
+Qed.
+
+(* Error(string) payload after the 4-byte selector: offset 32, length, data, zero padding *)
+Corollary reason_layout : forall b data,
+  enc (TTuple [TString b]) (VList [VBytes data]) = word 32 ++ word (zlen data) ++ data ++ zeros (pad32 (zlen data)).
+Proof. intros. rewrite enc_wrap1. reflexivity. Qed.
